@@ -232,6 +232,9 @@ def pair_job(arg):
         case = dict(workloads=[k1, k2], warm=warm, schedule=[first, j, k])
         for tid, sol in ((1, s1), (2, s2)):
             st, val = res[tid]
+            if st != 'ok' and val.startswith('Deadlock:'):
+                # the scheduler gave up waiting (an overloaded machine): no verdict
+                raise tlc.MachineryFailure(f'scheduler timeout {k1}/{k2} {first, j, k}: {val}')
             if st != 'ok':
                 out['violations'].append((
                     f'{kinds[tid]} raised {val} when interleaved with {kinds[3 - tid]} '
@@ -316,6 +319,8 @@ def fine_job(arg):
             case = dict(workloads=[k1, k2], schedule=['call', first, j])
             for tid in (1, 2):
                 st, val = res[tid]
+                if st != 'ok' and val.startswith('Deadlock:'):
+                    raise tlc.MachineryFailure(f'scheduler timeout {k1}/{k2} call {first, j}: {val}')
                 if st != 'ok':
                     out['violations'].append((
                         f'{kinds[tid]} raised {val} when {kinds[3 - tid]} '
@@ -347,6 +352,9 @@ def fine_job(arg):
             case = dict(workloads=[k1, k2], schedule=['call', first, j, k])
             for tid in (1, 2):
                 st, val = res[tid]
+                if st != 'ok' and val.startswith('Deadlock:'):
+                    raise tlc.MachineryFailure(
+                        f'scheduler timeout {k1}/{k2} call {first, j, k}: {val}')
                 if st != 'ok':
                     out['violations'].append((
                         f'{kinds[tid]} raised {val} (schedule: {kinds[first]} to its call {j}, '
